@@ -59,6 +59,7 @@ pub mod c13;
 pub mod c14;
 pub mod c15;
 pub mod c16;
+pub mod c17;
 pub mod c19;
 
 pub fn all() -> Vec<Scenario> {
@@ -80,6 +81,7 @@ pub fn all() -> Vec<Scenario> {
     c14::register(&mut v);
     c15::register(&mut v);
     c16::register(&mut v);
+    c17::register(&mut v);
     c19u::register(&mut v);
     c19::register(&mut v);
     c20u::register(&mut v);
